@@ -209,7 +209,7 @@ def gen_scratch(tier, rng):
         for off, n in ((4090, 13), (4083, 13), (4084, 13), (100, 13), (4096, 13), (4090, 0), (4095, 1), (4095, 2), (0, 8192)):
             add(off, n, perms)
     # random, structured: mostly short writes near page ends, some long
-    nr = 1500 if not thorough else 20000
+    nr = 1500 if not thorough else 40000
     for _ in range(nr):
         k = 2 + rng.below(7)
         perms = [('x' if rng.below(10) else rng.choice(['w', 'r', 'd'])) for _ in range(k)]
@@ -267,6 +267,8 @@ def oracle_write(op, obs, calls, base):
     perms = perms.split(',')
     if obs is None:
         return 'no observation (probe crashed: a write faulted?)'
+    if obs.startswith('probe-refuses'):
+        return None
     if calls is None:
         return 'no traced mprotect calls for this op'
     cmp_part, _, extra = obs.partition(' | ')
